@@ -30,11 +30,11 @@ theorem C12_preActGroup (n : Net) (sch : List Group) (hv : validSchedule n sch =
     group: the buffer after the pass satisfies the node equations -/
 theorem C12_schedule_sound (n : Net) (sch : List Group) (hv : validSchedule n sch = true)
     (hsm : softmaxTogether n sch = true) (hdisj : ∀ i ∈ n.inputs, i ∉ n.nonInputs)
-    (hlen : ∀ l, (softmax l).length = l.length)
-    (act : Nat → Rat → Rat) (softmax : List Rat → List Rat) (w : List Rat) (x v0 : Nat → Rat)
+    (act : Nat → Rat → Rat) (softmax : List Rat → List Rat)
+    (hlen : ∀ l, (softmax l).length = l.length) (w : List Rat) (x v0 : Nat → Rat)
     (hx : ∀ i ∈ n.inputs, v0 i = x i) :
     ∃ sm, Satisfies n act softmax w x (runSchedule n act softmax w sch v0) sm :=
-  schedule_sound n sch hv hsm hdisj hlen act softmax w x v0 hx
+  schedule_sound n sch hv hsm hdisj act softmax hlen w x v0 hx
 
 /-- the result does not depend on what the node buffer held before (earlier forward calls,
     uninitialised memory): only the input cells matter -/
